@@ -449,6 +449,12 @@ def _nparray(it, f, args, kw, node):
 def _npcopy(it, f, args, kw, node):
     v = f.bound if f.bound is not None else args[0]
     if isinstance(v, NDArr):
+        if f.name.endswith('.astype') and kw.get('copy') is False:
+            # astype(dtype, copy=False) returns the array ITSELF when the dtype already matches: both outcomes are explored
+            used('ndarray.astype(dtype, copy=False): the array itself if the dtype matches, else a freshly allocated array with equal contents')
+            if it.ctx.branch(it.ctx.fresh_bool('astype_dtype_matches'), 'astype(copy=False)'):
+                return v
+            return fresh_arr(node, v.store.val)
         used('ndarray.copy / np.copy / astype / deepcopy(ndarray): return a freshly allocated array with equal contents')
         return fresh_arr(node, v.store.val)
     if isinstance(v, (int, float, str, bool)) or v is None or is_sym(v):
